@@ -494,6 +494,7 @@ func trimCollinearOnce(path Path64, isOpen bool) Path64 {
 }
 
 func TrimCollinearD(path PathD, precision int, isOpen bool) PathD {
+	checkPrecision(precision)
 	scale := math.Pow(10, float64(precision))
 	scaledPath := ScalePathDToPath64(path, scale)
 	trimmedPath := TrimCollinear64(scaledPath, isOpen)
